@@ -33,9 +33,85 @@ CP = "morphing/concrete_provider"
 
 def run(repo: Repo, tier: str, res: CheckResult, seed: int = 0) -> None:
     scalar_agreement(repo, res)
+    paired_providers(repo, res)
     from .. import genprog
     genprog.c01_checks(repo, tier, res, seed)
     res.assumptions = list(ASSUMPTIONS)
+
+
+def _emitted_type(repo: Repo, m, e: ast.AST, depth: int = 0):
+    """type of the representation a dumper expression yields, or None when it cannot be told"""
+    if depth > 3:
+        return None
+    if isinstance(e, ast.FunctionDef):
+        outs = {_emitted_type(repo, m, r.value, depth + 1) for r in ast.walk(e) if isinstance(r, ast.Return) and r.value is not None}
+        return outs.pop() if len(outs) == 1 else None
+    if isinstance(e, ast.Call):
+        f = e.func
+        if isinstance(f, ast.Attribute):
+            if f.attr in ("decode", "isoformat", "strftime", "format", "hex", "__str__", "__fspath__"):
+                return "str"
+            if f.attr in ("timestamp", "total_seconds"):
+                return "float"
+            if f.attr in ("toordinal", "__int__"):
+                return "int"
+        if isinstance(f, ast.Name) and f.id in ("str", "repr", "format"):
+            return "str"
+        if isinstance(f, ast.Name) and f.id == "float":
+            return "float"
+        return None
+    if isinstance(e, ast.Attribute):
+        if e.attr in ("isoformat", "__str__", "__fspath__", "pattern"):
+            return "str"
+        if e.attr in ("total_seconds", "timestamp"):
+            return "float"
+        return None
+    if isinstance(e, ast.Name):
+        r = repo.resolve_expr_static(m, e)
+        if r.kind == "func" and isinstance(r.node, ast.FunctionDef):
+            return _emitted_type(repo, r.module, r.node, depth + 1)
+    return None
+
+
+def paired_providers(repo: Repo, res: CheckResult) -> None:
+    """class providers of concrete_provider that define loader and dumper side by side: the type the dumper emits is one of
+    the types the loader itself names as expected (first argument of its TypeLoadError)"""
+    m = repo.mod(CP)
+    n = judged = 0
+    for ci in m.classes.values():
+        ld = repo.find_method(ci, "_make_loader")
+        dm = repo.find_method(ci, "_make_dumper") or repo.find_method(ci, "provide_dumper")
+        if ld is None or dm is None or ci.name == "ScalarProvider":
+            continue
+        n += 1
+        expected: Set[str] = set()
+        for c in ast.walk(ld[1]):
+            if isinstance(c, ast.Call) and norm(c.func) == "TypeLoadError" and c.args:
+                expected |= {x.id for x in ast.walk(c.args[0]) if isinstance(x, ast.Name) and x.id not in ("Union", "Optional")}
+        outs = set()
+        for r in [x for x in ast.walk(dm[1]) if isinstance(x, ast.Return) and x.value is not None]:
+            v = r.value
+            if isinstance(v, ast.Name):
+                nested = [f for f in ast.walk(dm[1]) if isinstance(f, ast.FunctionDef) and f.name == v.id and f is not dm[1]]
+                outs.add(_emitted_type(repo, dm[0].module, nested[0] if nested else v))
+            elif isinstance(v, ast.Call) and norm(v.func).endswith("cached_call") and v.args:
+                continue
+            else:
+                outs.add(_emitted_type(repo, dm[0].module, v))
+        outs.discard(None)
+        ok = bool(expected) and len(outs) == 1
+        res.evaluated(f"paired:{ci.name}", ok)
+        if not ok:
+            continue
+        judged += 1
+        out = next(iter(outs))
+        res.sample({"provider": ci.name, "dumper emits": out, "loader expects": sorted(expected)})
+        if out not in expected:
+            res.add(Finding("C01", "REPR.dumper-output-not-accepted", m.rel, ci.name, f"dumper emits {out}, loader expects {sorted(expected)}",
+                            f"{ci.name}: the dumper emits a {out} while the loader of the same provider states that it expects "
+                            f"{sorted(expected)} (TypeLoadError): what dump produces is not what load takes", dm[1].lineno))
+    res.count("REPR.paired-class-providers", n, 8)
+    res.count("REPR.paired-class-providers-judged", judged, 5)
 
 
 def scalar_agreement(repo: Repo, res: CheckResult) -> None:
